@@ -743,3 +743,14 @@ def run(ctx: Context):
                 if call_tail(c) in BACKEND and "_storage_server" in call_name(c):
                     ok = any(f.qual == q or f.qual.startswith(q + ".") for q in routed)
                     r.require(ok, f, f.loc(c), "%s changes storage state outside an authorized route" % short(f))
+
+
+# -- write-enabler guard of the mutable write route (shared with C24) ------------------------------
+# The HTTP route only forwards the WRITE_ENABLER secret (C30.5); what makes it an authorization is the
+# storage server checking it against EVERY existing share of the slot before anything is written.
+_run_http_only = run
+
+
+def run(ctx: Context):   # noqa: F811
+    _run_http_only(ctx)
+    ctx.include("C24", ["C24.4", "C24.5"], "C30.7")
